@@ -28,6 +28,8 @@ func propC05() *Property {
 			{ID: "C05.R6", Title: "the fetch path keeps no unsynchronised shared state (concurrent faults cannot crash the process)", Floor: 28, Run: c08R6},
 			{ID: "C05.R8", Title: "garbage in a response cannot index past the pieces it was split into", Floor: 0, Run: splitIndexing},
 			{ID: "C05.R7", Title: "whatever a fetch may block on is released on every path, the error paths included", Floor: 0, Run: c05R7},
+			{ID: "C05.R11", Title: "a response cut short is refused: what is accepted went through the whole acceptance path, the decoder's verdict included (same instances as C03.R1)", Floor: 15, Run: c03R1},
+			{ID: "C05.R10", Title: "a flight is never joined from inside itself: nothing run by singleflight.Do reaches a Do on the same group", Floor: 1, Run: c05R10},
 			{ID: "C05.R9", Title: "one exchange per hop: no function of the fetcher dials twice on a path or in a loop", Floor: 1, Run: c05R9},
 		},
 	}
@@ -201,7 +203,7 @@ func c05R1(c *Ctx) {
 	}
 	c.info("connections", nConns)
 	if nConns == 0 {
-		broken("no network connection is opened anywhere in the module: anchors of C05.R1 are gone")
+		unfollowed("no network connection is opened anywhere in the module: anchors of C05.R1 are gone")
 	}
 }
 
@@ -1102,4 +1104,78 @@ func c05R9(c *Ctx) {
 		c.check(why == "", fname+"/one-exchange", P.Pos(fn.Pos()), fname, "at most one call that reaches the dialler on any path, none in a loop", fname+": "+why+" — the time a fetch can take is no longer one timeout per redirect hop")
 	}
 	c.info("fetcher_functions", n)
+}
+
+// c05R10: requests in flight are merged with singleflight. A function that runs
+// inside Do and can reach a Do on the same group — the fetcher recursing
+// through its own deduplication for a redirect — waits for itself as soon as
+// the key repeats (a redirect cycle): no connection is open at that point, so
+// no deadline ever fires and the fetch never ends (seeds C05-1r8 / C03-1r8).
+func c05R10(c *Ctx) {
+	P := c.P
+	type doSite struct {
+		fn    *ssa.Function
+		call  ssa.CallInstruction
+		group string
+		work  *ssa.Function
+	}
+	var sites []doSite
+	for _, fn := range P.Funcs {
+		eachInstr(fn, func(_ *ssa.BasicBlock, _ int, in ssa.Instruction) {
+			ci, ok := in.(ssa.CallInstruction)
+			if !ok {
+				return
+			}
+			cc := ci.Common()
+			fo := calleeObj(cc)
+			if fo == nil || fo.Pkg() == nil || !strings.HasSuffix(fo.Pkg().Path(), "singleflight") || (fo.Name() != "Do" && fo.Name() != "DoChan") || len(cc.Args) < 3 {
+				return
+			}
+			var work *ssa.Function
+			switch w := cc.Args[2].(type) {
+			case *ssa.Function:
+				work = w
+			case *ssa.MakeClosure:
+				work, _ = w.Fn.(*ssa.Function)
+			}
+			sites = append(sites, doSite{fn, ci, path(cc.Args[0]), work})
+		})
+	}
+	for _, s := range sites {
+		fname := FuncName(s.fn)
+		if s.work == nil {
+			c.bad(fname+"/flight", P.InstrPos(s.call), fname, "what runs inside singleflight.Do cannot be identified")
+			continue
+		}
+		reach := map[*ssa.Function]bool{s.work: true}
+		work := []*ssa.Function{s.work}
+		for len(work) > 0 {
+			f := work[0]
+			work = work[1:]
+			eachInstr(f, func(_ *ssa.BasicBlock, _ int, in ssa.Instruction) {
+				if ci, ok := in.(ssa.CallInstruction); ok {
+					for _, callee := range P.Callees(ci) {
+						if P.IsServitorFunc(callee) && !reach[callee] {
+							reach[callee] = true
+							work = append(work, callee)
+						}
+					}
+				}
+				if mc, ok := in.(*ssa.MakeClosure); ok {
+					if cf := mc.Fn.(*ssa.Function); !reach[cf] {
+						reach[cf] = true
+						work = append(work, cf)
+					}
+				}
+			})
+		}
+		again := ""
+		for _, s2 := range sites {
+			if s2.group == s.group && reach[s2.fn] {
+				again = P.InstrPos(s2.call)
+			}
+		}
+		c.check(again == "", fname+"/flight", P.InstrPos(s.call), fname, "nothing that runs inside this flight can join a flight of the same group",
+			"what runs inside singleflight.Do here can reach the Do on the same group at "+again+": when the key repeats (a redirect that leads back to a URL already being fetched) the fetch waits for itself, with no connection open and no deadline running")
+	}
 }
